@@ -589,8 +589,8 @@ func plans(thorough bool) []plan {
 		return []plan{
 			{fam: fam("1-level/<=3 entries", 1, 3, 2, 0, true), depth: 3, bounds: b15, tsun: true},
 			{fam: fam("2-level/<=3 entries/<=1 tombstone", 2, 3, 1, 0, false), depth: 3, bounds: b15, tsun: true},
-			{fam: fam("2-level/3 entries/2 tombstones", 2, 3, 2, 2, false), depth: 3, bounds: b5, tsun: true},
 			{fam: memOnly(fam("2-level/<=3 entries/<=1 tombstone/newest level a memtable", 2, 3, 1, 0, false)), depth: 3, bounds: b5, tsun: true},
+			{fam: fam("2-level/3 entries/2 tombstones", 2, 3, 2, 2, false), depth: 3, bounds: b5, tsun: true},
 		}
 	}
 	return []plan{
